@@ -434,9 +434,64 @@ def finish(ctx):
     return 0
 
 
+# the regenerated tie: which source facts (extracted by /verif/extract, stated in Spec/SourceFacts.lean)
+# each property's model and proofs rely on; proved anew, for the freshly extracted tables, by every run
+FACT_THEOREMS = {
+    "consts": "theorem source_constants_match_model : constsOk consts = true := by decide +kernel",
+    "dispatch": "theorem source_dispatch_is_the_expected_table : dispatch = expectedDispatch ∧ dispatchDefault = \"cmdNotFound\" := by decide +kernel",
+    "exec": "theorem source_exec_frame : execOk execBody = true := by decide +kernel",
+    "pebble": "theorem source_pebble_writes_are_synchronous : pebbleOk pebbleCalls noSyncMentions = true := by decide +kernel",
+    "signal": "theorem source_writers_signal : writersSignal writers = true := by decide +kernel",
+    "notify": "theorem source_writers_notify : writersNotify writers = true := by decide +kernel",
+}
+FACTS_OF = {
+    "C01": ["consts", "dispatch"], "C02": ["dispatch"], "C03": ["consts", "dispatch"], "C04": ["dispatch"],
+    "C05": ["exec"], "C06": ["exec"], "C07": ["exec"], "C08": ["consts", "dispatch"], "C09": ["signal", "dispatch"],
+    "C10": ["dispatch"], "C11": ["consts"], "C12": ["consts"], "C13": ["pebble"], "C14": ["consts"], "C15": ["dispatch"],
+    "C16": ["dispatch", "consts"], "C17": ["consts", "dispatch"], "C18": ["dispatch"], "C19": ["dispatch"], "C20": ["notify", "consts"],
+}
+
+
+def facts_stage(ctx):
+    """Regenerate the source facts from REPO and prove this property's obligations about them.
+    Returns a list of (name, why) that failed."""
+    wanted = FACTS_OF.get(ctx.pid, [])
+    if not wanted:
+        return []
+    exe = f"{BUILD}/extract"
+    with Lock("go"):
+        rc, so, se = sh(["go", "build", "-o", exe, "."], cwd=f"{ROOT}/extract", env=GOENV, timeout=600)
+    if rc != 0:
+        return [("extract", "the fact extractor does not build: " + se[-300:])]
+    rc, gen, se = sh([exe, REPO], timeout=120)
+    ctx.obligations += len(wanted)
+    if rc != 0:
+        return [("extract", "the source no longer has the shape the facts are read from: " + se.strip()[-300:])]
+    names = [re.search(r"theorem (\w+)", FACT_THEOREMS[w]).group(1) for w in wanted]
+    body = ["import NodisVerif.Spec.SourceFacts", gen, "open NodisVerif NodisVerif.SourceFacts NodisVerif.Generated", "namespace NodisVerif.Tie"]
+    body += [FACT_THEOREMS[w] for w in wanted] + ["end NodisVerif.Tie"] + [f"#print axioms NodisVerif.Tie.{n}" for n in names]
+    path = f"{ctx.work}/SourceFacts.lean"
+    open(path, "w").write("\n".join(body) + "\n")
+    with Lock("lake"):
+        rc, so, se = sh(["lake", "env", "lean", path], cwd=LEAN, timeout=1200)
+    out = so + se
+    bad = []
+    for n in names:
+        m = re.search(r"'NodisVerif\.Tie\." + n + r"' (does not depend on any axioms|depends on axioms: \[([^\]]*)\])", out, flags=re.S)
+        ax = set() if not m or not m.group(2) else {a.strip() for a in m.group(2).replace("\n", " ").split(",") if a.strip()}
+        if not m or not ax <= ALLOWED_AXIOMS:
+            err = re.search(r"SourceFacts\.lean:\d+:\d+: error:[^\n]*(\n[^\n]*){0,6}", out)
+            bad.append((n, "source fact no longer holds (regenerated table in " + path + "): " + (err.group(0)[:500] if err else "not proved")))
+        else:
+            ctx.discharged += 1
+            ctx.theorems.append("Tie." + n)
+    ctx.cov["source_facts"] = {"extractor": "/verif/extract (go/ast)", "facts": wanted, "theorems": names, "failed": [b[0] for b in bad]}
+    return bad
+
+
 def proof_stage(ctx, extra_targets=()):
     """Steps 3+4. Returns True if all obligations were discharged."""
-    rc, out = lake_build(ctx, [f"NodisVerif.Props.{ctx.pid}", "driver", *extra_targets])
+    rc, out = lake_build(ctx, [f"NodisVerif.Props.{ctx.pid}", "NodisVerif.Spec.SourceFacts", "driver", *extra_targets])
     if rc != 0:
         first = re.search(r"error: ([^\n]*\.lean:\d+:\d+:[^\n]*)", out)
         ctx.notes.append("lake build failed: " + (first.group(1) if first else out[-300:]))
@@ -445,6 +500,7 @@ def proof_stage(ctx, extra_targets=()):
         ctx.build_log = out[-6000:]
         return False
     bad, out = audit(ctx)
+    bad = bad + facts_stage(ctx)
     if bad:
         ctx.broken_proof = "; ".join(f"{n}: {why}" for n, why in bad)
         ctx.build_log = out[-3000:]
